@@ -464,6 +464,9 @@ simcam_start(struct Camera* camera)
     self->streamer.is_running = 1;
     self->im.last_emitted_frame_id = -1;
     self->im.frame_id = -1;
+    // A trigger left over from before this start (the one stop fires to
+    // release the streamer, or one fired while not gated) must not count.
+    self->software_trigger.triggered = 0;
     TRACE("SIMULATED CAMERA: thread launch");
     CHECK(thread_create(&self->streamer.thread,
                         (void (*)(void*))simulated_camera_streamer_thread,
